@@ -277,4 +277,87 @@ mod verif_c11 {
             assert!(matches!(r, Ok(b) if b == answer));
         }
     }
+
+    /// the projections of a view enumerate the terms of ITS TRIPLES: a term that occurs only as a graph name of the
+    /// underlying quads is not a term of the union graph
+    //@STUBS
+    #[kani::proof]
+    #[kani::unwind(8)]
+    fn c11_union_graph_projections() {
+        let d = Rec::default(); // quads(): one quad (1, 2, 3) in graph 7
+        let v = UnionGraph::new(&d);
+        let mut seen = [false; 10];
+        let mut n = 0;
+        for t in v.blank_nodes() {
+            let t = t.unwrap();
+            seen[id(t) as usize] = true;
+            n += 1;
+            if n > 6 {
+                break;
+            }
+        }
+        assert!(seen[1] && seen[2] && seen[3]);
+        assert!(!seen[7]);
+        // subjects / predicates / objects are those of the triple
+        let mut it = v.subjects();
+        assert!(id(it.next().unwrap().unwrap()) == 1);
+        let mut it = v.predicates();
+        assert!(id(it.next().unwrap().unwrap()) == 2);
+        let mut it = v.objects();
+        assert!(id(it.next().unwrap().unwrap()) == 3);
+    }
+
+    /// graph whose term enumerations each yield a distinct sentinel: a view must answer each enumeration with the
+    /// graph's enumeration of the same name (what the graph says its literals are, are the view's literals ...)
+    pub struct PRec;
+    impl Graph for PRec {
+        type Triple<'x> = [K; 3];
+        type Error = Infallible;
+        fn triples(&self) -> impl Iterator<Item = GResult<Self, Self::Triple<'_>>> + '_ {
+            std::iter::once(Ok([K(1), K(2), K(3)]))
+        }
+        fn subjects(&self) -> impl Iterator<Item = GResult<Self, K>> + '_ {
+            std::iter::once(Ok(K(1)))
+        }
+        fn predicates(&self) -> impl Iterator<Item = GResult<Self, K>> + '_ {
+            std::iter::once(Ok(K(2)))
+        }
+        fn objects(&self) -> impl Iterator<Item = GResult<Self, K>> + '_ {
+            std::iter::once(Ok(K(3)))
+        }
+        fn iris(&self) -> impl Iterator<Item = GResult<Self, K>> + '_ {
+            std::iter::once(Ok(K(4)))
+        }
+        fn blank_nodes(&self) -> impl Iterator<Item = GResult<Self, K>> + '_ {
+            std::iter::once(Ok(K(5)))
+        }
+        fn literals(&self) -> impl Iterator<Item = GResult<Self, K>> + '_ {
+            std::iter::once(Ok(K(6)))
+        }
+        fn variables(&self) -> impl Iterator<Item = GResult<Self, K>> + '_ {
+            std::iter::once(Ok(K(8)))
+        }
+    }
+    fn first<I: Iterator<Item = Result<K, Infallible>>>(mut it: I) -> u8 {
+        match it.next() {
+            Some(Ok(k)) => id(k),
+            _ => 99,
+        }
+    }
+
+    //@STUBS
+    #[kani::proof]
+    #[kani::unwind(4)]
+    fn c11_graph_as_dataset_projections() {
+        let g = PRec;
+        let v = GraphAsDataset::new(&g);
+        assert!(first(v.subjects()) == 1);
+        assert!(first(v.predicates()) == 2);
+        assert!(first(v.objects()) == 3);
+        assert!(first(v.iris()) == 4);
+        assert!(first(v.blank_nodes()) == 5);
+        assert!(first(v.literals()) == 6);
+        assert!(first(v.variables()) == 8);
+        assert!(v.graph_names().next().is_none()); // only the default graph
+    }
 }
